@@ -60,10 +60,10 @@ pub fn parse_model(
     )(input)?;
 
     let question_lut = BTreeMap::from_iter(questions);
-    let new_trees: Vec<_> = trees
+    let new_trees = trees
         .into_iter()
         .map(|t| convert_tree(t, &question_lut))
-        .collect();
+        .collect::<Result<Vec<_>, _>>()?;
 
     Ok(Model::new(new_trees, pdf))
 }
@@ -71,19 +71,19 @@ pub fn parse_model(
 fn convert_tree(
     orig_tree: self::tree::Tree,
     question_lut: &BTreeMap<String, Question>,
-) -> crate::model::voice::tree::Tree {
+) -> Result<crate::model::voice::tree::Tree, ModelParseError> {
     let node_lut = BTreeMap::from_iter(orig_tree.nodes.iter().enumerate().map(|(i, n)| (n.id, i)));
 
     if orig_tree.nodes.len() == 1 && orig_tree.nodes[0].yes == orig_tree.nodes[0].no {
         let TreeIndex::Pdf(i) = orig_tree.nodes[0].yes else {
-            todo!("Malformed model file. Should not reach here.");
+            return Err(ModelParseError::MalformedTree);
         };
-        return crate::model::voice::tree::Tree {
+        return Ok(crate::model::voice::tree::Tree {
             nodes: vec![crate::model::voice::tree::TreeNode::Leaf {
                 pdf_index: i as usize,
             }],
             state: orig_tree.state,
-        };
+        });
     }
 
     let mut pdfs = Vec::new();
@@ -106,7 +106,7 @@ fn convert_tree(
                 .map(|v| v + orig_tree.nodes.len())
                 .ok(),
         }
-        .unwrap();
+        .ok_or(ModelParseError::MalformedTree)?;
         let no_id = match node.no {
             TreeIndex::Node(id) => node_lut.get(&id).copied(),
             TreeIndex::Pdf(id) => pdfs
@@ -114,10 +114,13 @@ fn convert_tree(
                 .map(|v| v + orig_tree.nodes.len())
                 .ok(),
         }
-        .unwrap();
+        .ok_or(ModelParseError::MalformedTree)?;
 
         nodes.push(crate::model::voice::tree::TreeNode::Node {
-            question: (*question_lut.get(&node.question_name).unwrap()).clone(),
+            question: question_lut
+                .get(&node.question_name)
+                .ok_or(ModelParseError::MalformedTree)?
+                .clone(),
             yes: yes_id,
             no: no_id,
         });
@@ -129,8 +132,8 @@ fn convert_tree(
             }),
     );
 
-    crate::model::voice::tree::Tree {
+    Ok(crate::model::voice::tree::Tree {
         nodes,
         state: orig_tree.state,
-    }
+    })
 }
